@@ -287,6 +287,7 @@ static spif_cmp_t
 spif_dlinked_list_item_comp(spif_dlinked_list_item_t self, spif_dlinked_list_item_t other)
 {
     SPIF_OBJ_COMP_CHECK_NULL(self, other);
+    SPIF_OBJ_COMP_CHECK_NULL(self->data, other->data);
     return SPIF_OBJ_COMP(SPIF_OBJ(self->data), SPIF_OBJ(other->data));
 }
 
